@@ -315,6 +315,20 @@ impl LightClientProtocol {
     ) -> Result<(), Status> {
         self.check_verifiable_header(&last_header)?;
         let last_state = LastState::new(last_header);
+        // Do NOT update the timestamp for same last state, same as a `SendLastState` message,
+        // so the peer could be disconnected after timeout check.
+        let is_same_as_previous = self
+            .peers()
+            .get_state(&peer_index)
+            .and_then(|state| {
+                state
+                    .get_last_state()
+                    .map(|prev_last_state| last_state.is_same_as(prev_last_state))
+            })
+            .unwrap_or(false);
+        if is_same_as_previous {
+            return Ok(());
+        }
         trace!("peer {}: update last state", peer_index);
         self.peers().update_last_state(peer_index, last_state)?;
         Ok(())
